@@ -521,7 +521,7 @@ def do_search(prop, spec, args, jobs, scratch):
         # other hash seed): schedule digests must agree
         det = {"sampled": 0, "schedule_mismatch": 0, "result_mismatch": 0}
         if not harness_errors and n_det and agg.n:
-            det = determinism_sample(prop, tier, agg, n_det, scratch, opts, harness_errors)
+            det = determinism_sample(prop, tier, agg, n_det, scratch, opts, harness_errors, violations)
 
         # --- verdict ----------------------------------------------------------
         reported = []
@@ -580,10 +580,14 @@ def do_search(prop, spec, args, jobs, scratch):
     return EXIT_VIOLATION if reported else EXIT_OK
 
 
-def determinism_sample(prop, tier, agg, n_det, scratch, opts, harness_errors):
-    """Re-execute a sample of seeds in fresh interpreters: same hash seed and a
-    different one.  Schedule digests must match (else the harness is broken)."""
-    ok_jobs = [j for j, d in sorted(agg.digests.items()) if d[0] is not None]
+def determinism_sample(prop, tier, agg, n_det, scratch, opts, harness_errors, violations=None):
+    """Re-execute a sample of the runs that held in fresh interpreters: same hash
+    seed and a different one.  Schedule digests must match (else the harness is
+    broken).  A run that held under hash seed 0 and reports a violation in the
+    re-execution is a violation (with the hash seed recorded in its replay file);
+    its schedule legitimately stops earlier, so digests are not compared then."""
+    ok_jobs = [j for j, d in sorted(agg.digests.items())
+               if d[0] is not None and agg.status.get(j) == "ok"]
     if not ok_jobs:
         return {"sampled": 0, "schedule_mismatch": 0, "result_mismatch": 0}
     step = max(1, len(ok_jobs) // n_det)
@@ -606,6 +610,15 @@ def determinism_sample(prop, tier, agg, n_det, scratch, opts, harness_errors):
             r = out.get(j)
             if r is None or r.get("status") == "harness_error":
                 harness_errors.append(r or {"message": "determinism re-run missing"})
+                continue
+            if r.get("status") == "violation":
+                if violations is not None:
+                    r["hashseed"] = hs
+                    r["message"] = (f"[held under PYTHONHASHSEED=0, fails in a fresh interpreter under "
+                                    f"PYTHONHASHSEED={hs}] " + str(r.get("message")))
+                    r["no_shrink"] = True
+                    violations.append(r)
+                det["result_mismatch"] += 1
                 continue
             sd, rd = agg.digests[j]
             if r.get("schedule_digest") != sd:
@@ -632,6 +645,7 @@ class Aggregate:
         self.samples = []
         self.digests = {}
         self.step_digests = {}
+        self.status = {}
         self.seeds = {}
         self.run_wall = 0.0
         self.configs = collections.Counter()
@@ -646,6 +660,7 @@ class Aggregate:
             self.n_ok += 1
         j = res.get("job")
         self.seeds[j] = res.get("seed")
+        self.status[j] = res.get("status")
         self.digests[j] = (res.get("schedule_digest"), res.get("result_digest"))
         if res.get("step_digests") is not None:
             self.step_digests[j] = (res.get("status"), res.get("step_digests"))
